@@ -1,5 +1,5 @@
 CONSTANTS MaxPieces = 4 LongLens = {0, 260} Emit = TRUE SmallBufs = FALSE
 INIT Init
 NEXT Next
-INVARIANTS ReadsAsText Dump
+INVARIANTS Dump
 CHECK_DEADLOCK FALSE
